@@ -114,6 +114,9 @@ type NSSpec struct {
 	// DataVersion "" = default; "value_header_v1" is required by wait_compact.
 	DataVersion string `json:"data_version,omitempty"`
 	SnapCount   int    `json:"snap_count,omitempty"`
+	// Gen distinguishes incarnations of a namespace that is deleted and created
+	// again under the same name (a re-created namespace gets new raft group ids).
+	Gen int `json:"gen,omitempty"`
 }
 
 type HostConf struct {
@@ -237,9 +240,14 @@ func (h *Host) initNamespace(ns NSSpec, startNow bool) error {
 		if ns.DataVersion != "" {
 			nsConf.DataVersion = ns.DataVersion
 		}
-		nsConf.RaftGroupConf.GroupID = nsGroupBase(ns.Name) + uint64(pid)
+		nsConf.RaftGroupConf.GroupID = nsGroupBase(ns.Name) + uint64(ns.Gen)*32 + uint64(pid)
 		nsConf.RaftGroupConf.SeedNodes = []node.ReplicaInfo{{NodeID: h.Conf.NodeID, ReplicaID: h.Conf.NodeID, RaftAddr: h.raftAddr}}
 		nn, err := h.Srv.InitKVNamespace(h.Conf.NodeID, nsConf, false)
+		for try := 0; err == node.ErrNamespaceAlreadyExist && startNow && try < 100; try++ {
+			// a destroyed partition of the same name unregisters itself asynchronously
+			time.Sleep(50 * time.Millisecond)
+			nn, err = h.Srv.InitKVNamespace(h.Conf.NodeID, nsConf, false)
+		}
 		if err != nil {
 			return fmt.Errorf("init namespace %s: %v", nsConf.Name, err)
 		}
@@ -259,6 +267,38 @@ func (h *Host) initNamespace(ns NSSpec, startNow bool) error {
 func (h *Host) AddNamespace(ns NSSpec) error {
 	h.Conf.Namespaces = append(h.Conf.Namespaces, ns)
 	return h.initNamespace(ns, true)
+}
+
+// InitPartitions initialises and starts some partitions of a namespace on a
+// running host, the way the data-node coordinator does for one partition
+// (InitNamespaceNode + Start).
+func (h *Host) InitPartitions(ns NSSpec, pids ...int) error {
+	ns.Parts = pids
+	return h.initNamespace(ns, true)
+}
+
+// DestroyPartition removes a local partition the way the data-node coordinator
+// does (forceRemoveLocalNamespace: NamespaceNode.Destroy) and waits until it
+// is unregistered from the namespace manager.
+func (h *Host) DestroyPartition(ns string, pid int) error {
+	full := ns + "-" + strconv.Itoa(pid)
+	nn := h.Srv.GetNsMgr().GetNamespaces()[full]
+	if nn == nil {
+		return fmt.Errorf("partition %s not registered", full)
+	}
+	if err := nn.Destroy(); err != nil {
+		return err
+	}
+	h.mu.Lock()
+	delete(h.nodes, full)
+	h.mu.Unlock()
+	for i := 0; i < 200; i++ {
+		if cur, ok := h.Srv.GetNsMgr().GetNamespaces()[full]; !ok || cur != nn {
+			return nil
+		}
+		time.Sleep(25 * time.Millisecond)
+	}
+	return fmt.Errorf("partition %s still registered 5 s after Destroy", full)
 }
 
 // Node returns the KVNode of one hosted partition (nil if not hosted/ready).
